@@ -1,0 +1,48 @@
+//go:build verif
+
+package conversion
+
+// Contracts for the verifier in /verif (comment-only file; no declarations).
+
+//@ func fixedPartition(input, fraction, output1, output2)
+//@   noalias
+//@   safety C16
+//@   requires input.len == output1.len && input.len == output2.len
+//@   assigns output1.cells, output2.cells
+//@   ensures [C16.fixed-sum] forall(t, 0, input.len, output1.at(t) + output2.at(t) == input.at(t))
+//@   ensures [C16.fixed-split] forall(t, 0, input.len, output1.at(t) == input.at(t)*fraction)
+//@   ensures [C16.fixed-inputs-unchanged] input.cells == old(input.cells)
+//@   loop 0 invariant 0 <= i && i <= nDays
+//@   loop 0 invariant forall(t, 0, i, output1.at(t) + output2.at(t) == input.at(t))
+//@   loop 0 invariant forall(t, 0, i, output1.at(t) == input.at(t)*fraction)
+
+//@ func variablePartition(input, fraction, output1, output2)
+//@   noalias
+//@   safety C16
+//@   requires input.len == output1.len && input.len == output2.len && input.len == fraction.len
+//@   assigns output1.cells, output2.cells
+//@   ensures [C16.var-sum] forall(t, 0, input.len, output1.at(t) + output2.at(t) == input.at(t))
+//@   ensures [C16.var-split] forall(t, 0, input.len, output1.at(t) == input.at(t)*fraction.at(t))
+//@   loop 0 invariant 0 <= i && i <= nDays
+//@   loop 0 invariant forall(t, 0, i, output1.at(t) + output2.at(t) == input.at(t))
+//@   loop 0 invariant forall(t, 0, i, output1.at(t) == input.at(t)*fraction.at(t))
+
+//@ func applyScaling(input, scale, output)
+//@   noalias
+//@   safety C16
+//@   requires input.len == output.len
+//@   requires implies(scale == 0, forall(t, 0, output.len, output.at(t) == 0))
+//@   assigns output.cells
+//@   ensures [C16.scale-linear] forall(t, 0, input.len, output.at(t) == input.at(t)*scale)
+//@   loop 0 invariant 0 <= i && i <= nDays
+//@   loop 0 invariant forall(t, 0, i, output.at(t) == input.at(t)*scale)
+
+//@ func depthToRate(inputs, deltaT, area, outflows)
+//@   noalias
+//@   safety C16
+//@   requires inputs.len == outflows.len && deltaT > 0
+//@   requires implies(area == 0, forall(t, 0, outflows.len, outflows.at(t) == 0))
+//@   assigns outflows.cells
+//@   ensures [C16.depth-to-rate] forall(t, 0, inputs.len, outflows.at(t) == inputs.at(t) * (0.001 * area / deltaT))
+//@   loop 0 invariant 0 <= i && i <= nDays
+//@   loop 0 invariant forall(t, 0, i, outflows.at(t) == inputs.at(t) * (0.001 * area / deltaT))
